@@ -160,7 +160,7 @@ Definition occ (c : nat) (ob : obj) : nat := cocc c (stack ob) + cocc c (opend o
 Definition out (os : list obj) (c : nat) : nat := lsum (occ c) os.
 
 Definition obj_ok (ob : obj) : Prop :=
-  (ow ob = WRes -> oslot ob <> None) /\ (opend ob <> [] -> ow ob = WRes).
+  (ow ob = WRes -> oslot ob <> None) /\ (opend ob <> [] -> ow ob = WRes) /\ (ow ob <> WRes -> othr ob = None).
 
 Definition reg_done (os : list obj) (c o : nat) : Prop :=
   ocomplete os o = true \/ exists ob, nth_error os o = Some ob /\ In c (stack ob).
@@ -180,44 +180,50 @@ Definition shape_ok (x : ast) (a : apt) : bool :=
   | _ => true
   end.
 
-Definition B_ok (co : coro) (k : nat) : Prop :=
-  match capt co with
-  | None => k = 0
+(* every part of the invariant takes exactly the fields it depends on, so that a step that leaves them alone leaves the
+   part syntactically unchanged *)
+Definition shape_none (x : ast) : bool := match x with AIdle | ARun | AFinal | ADone => true | _ => false end.
+
+Definition B_ok (ca : option apt) (x : ast) (n_cnt : nat) (k : nat) : Prop :=
+  match ca with
+  | None => shape_none x = true /\ k = 0
   | Some a =>
-      shape_ok (cst co) a = true /\
+      shape_ok x a = true /\
       let n := length (aobjs a) in
-      match cst co with
+      match x with
       | AReg i w | ARegU i w | ARegS i w _ =>
           match a with
-          | PAwaitN _ _ => cnt co + w = n + 1 + k /\ w <= i
-          | PAwait1 (FOn _) _ => cnt co = 1 /\ k = 0
+          | PAwaitN _ _ => n_cnt + w = n + 1 + k /\ w <= i /\ i < n
+          | PAwait1 (FOn _) _ => n_cnt = 1 /\ k = 0
           | _ => k = 0
           end
-      | ACtor w => cnt co + w = n + 1 + k /\ w <= n
-      | AReadyL => if amulti a then cnt co = k + 1 else k = 0
-      | ASusp => cnt co = k + 1
-      | AWait => if acounted a then cnt co = k /\ 1 <= k else k = 1
+      | ACtor w => n_cnt + w = n + 1 + k /\ w <= n
+      | AReadyL => if amulti a then n_cnt = k + 1 else k = 0
+      | ASusp => n_cnt = k + 1
+      | AWait => if acounted a then n_cnt = k /\ 1 <= k else k = 1
       | _ => k = 0
       end
   end.
 
-Definition C_ok (s : st) (c : nat) (co : coro) : Prop :=
-  match capt co with
+Definition C_ok (os : list obj) (c : nat) (ca : option apt) (x : ast) : Prop :=
+  match ca with
   | None => True
   | Some a =>
-      match cst co with
-      | AReg i _ | ARegU i _ | ARegS i _ _ => forall o, In o (firstn i (aobjs a)) -> reg_done (objs s) c o
-      | ACtor _ | ASusp | AWait => forall o, In o (aobjs a) -> reg_done (objs s) c o
-      | AReadyL => amulti a = true -> forall o, In o (aobjs a) -> reg_done (objs s) c o
-      | ASubmit _ | AQueued _ | AResume _ => all_complete (objs s) (aobjs a)
+      match x with
+      | AReg i _ | ARegU i _ | ARegS i _ _ => forall o, In o (firstn i (aobjs a)) -> reg_done os c o
+      | ACtor _ | ASusp | AWait => forall o, In o (aobjs a) -> reg_done os c o
+      | AReadyL => amulti a = true -> forall o, In o (aobjs a) -> reg_done os c o
+      | ASubmit _ | AQueued _ | AResume _ => all_complete os (aobjs a)
       | _ => True
       end
   end.
 
-Definition D_ok (s : st) (c : nat) (co : coro) : Prop :=
-  (forall x q, nth_error (qs s) x = Some q ->
-               cocc c q = match cst co with AQueued x' => if Nat.eqb x' x then 1 else 0 | _ => 0 end) /\
-  (forall x, cst co = AQueued x -> exists q, nth_error (qs s) x = Some q).
+Definition qof (x : ast) : option nat := match x with AQueued e => Some e | _ => None end.
+
+Definition D_ok (l : list (list nat)) (c : nat) (qx : option nat) : Prop :=
+  (forall x q, nth_error l x = Some q ->
+               cocc c q = match qx with Some x' => if Nat.eqb x' x then 1 else 0 | None => 0 end) /\
+  (forall x, qx = Some x -> exists q, nth_error l x = Some q).
 
 Definition target (a : apt) (own0 : nat) : nat := match aform a with FOn e => e | _ => own0 end.
 
@@ -233,56 +239,68 @@ Definition where_ok (os : list obj) (a : apt) (h : how) (t ex own0 : nat) : Prop
          exists o ob, In o (aobjs a) /\ h = ByFire o /\ nth_error os o = Some ob /\ othr ob = Some t
   end.
 
-Definition W_ok (s : st) (co : coro) : Prop :=
-  match capt co with
+Definition W_ok (os : list obj) (ca : option apt) (x : ast) (t ex own0 : nat) : Prop :=
+  match ca with
   | None => True
   | Some a =>
-      match cst co with
-      | AResume h => where_ok (objs s) a h (on co) (cexec co) (cown0 co)
-      | ASubmit x | AQueued x => x <> 0 /\ x = target a (cown0 co) /\ cexec co = x
-      | AReadyL | AReg _ _ | ARegU _ _ | ARegS _ _ _ | ACtor _ | ASusp | ATaskSt | AWait =>
-          cexec co = target a (cown0 co)
+      match x with
+      | AResume h => where_ok os a h t ex own0
+      | ASubmit e | AQueued e => e <> 0 /\ e = target a own0 /\ ex = e
+      | AReadyL | AReg _ _ | ARegU _ _ | ARegS _ _ _ | ACtor _ | ASusp | ATaskSt | AWait => ex = target a own0
       | _ => True
       end
   end.
 
-Definition rec_ok (s : st) (co : coro) (r : rrec) : Prop :=
-  rok r = true /\
-  forall a, nth_error (prog co) (rk r) = Some a ->
-    all_complete (objs s) (aobjs a) /\
-    where_ok (objs s) a (rhow r) (rthr r) (rexec r) (rown r) /\
+Definition rec_ok (os : list obj) (pg : list apt) (r : rrec) : Prop :=
+  rok r = true /\ rlive r = true /\
+  forall a, nth_error pg (rk r) = Some a ->
+    all_complete os (aobjs a) /\
+    where_ok os a (rhow r) (rthr r) (rexec r) (rown r) /\
     match aconsume a with
-    | Some (o, _) => exists ob v, nth_error (objs s) o = Some ob /\ oslot ob = Some v /\ rval r = Some (Some v)
+    | Some (o, _) => exists ob v, nth_error os o = Some ob /\ oslot ob = Some v /\ rval r = Some (Some v)
     | None => rval r = None
     end.
 
-Definition E_ok (s : st) (co : coro) : Prop :=
-  map rk (resumes co) = seq 0 (pc co) /\ Forall (rec_ok s co) (resumes co) /\
-  Forall (fun p => fst p = true -> snd p = true) (readys co).
+Definition E_ok (os : list obj) (pg : list apt) (p : nat) (rs : list rrec) (rd : list (bool * bool)) : Prop :=
+  (map rk rs = seq 0 p /\ p <= length pg) /\ Forall (rec_ok os pg) rs /\ Forall (fun p => fst p = true -> snd p = true) rd.
 
-Definition F_ok (co : coro) : Prop :=
-  (llive co = true /\ ldtors co = 0 \/ llive co = false /\ ldtors co = 1) /\
-  (fowner co = true /\ ffrees co = 0 \/ fowner co = false /\ ffrees co = 1 /\ llive co = false /\ cst co = ADone).
+Definition is_done (x : ast) : bool := match x with ADone => true | _ => false end.
+Definition ended (x : ast) : bool := match x with AFinal | ADone => true | _ => false end.
+
+Definition F_ok (lv : bool) (ld : nat) (fo : bool) (ff : nat) (done : bool) : Prop :=
+  (lv = true /\ ld = 0 \/ lv = false /\ ld = 1) /\
+  (fo = true /\ ff = 0 \/ fo = false /\ ff = 1 /\ lv = false /\ done = true).
 
 Definition result_of (e : cend_t) : option res :=
   match e with Running => None | Returned r => Some r | Threw x => Some x | Dropped => Some RStop end.
 
-Definition ended (x : ast) : bool := match x with AFinal | ADone => true | _ => false end.
+Definition is_res (w : word) : bool := match w with WRes => true | _ => false end.
 
-Definition H_ok (s : st) (c : nat) (co : coro) : Prop :=
-  (cend co = Running <-> ended (cst co) = false) /\
-  (cend co <> Running -> exists ob, nth_error (objs s) (own co) = Some ob /\ oprod ob = Some c /\
-                                    oslot ob = result_of (cend co)) /\
-  (forall ob, nth_error (objs s) (own co) = Some ob -> oprod ob = Some c -> (cst co = ADone <-> ow ob = WRes)) /\
-  match cend co with
-  | Returned _ => pc co = length (prog co)
-  | Threw e => exists l r a o, resumes co = l ++ [r] /\ rval r = Some (Some e) /\ is_err (Some e) = Some e /\
-                               nth_error (prog co) (rk r) = Some a /\ aconsume a = Some (o, false)
+Definition H_ok (os : list obj) (c : nat) (ce : cend_t) (ow_ : nat) (en dn : bool) (p : nat) (pg : list apt)
+                (rs : list rrec) : Prop :=
+  (ce = Running <-> en = false) /\
+  (ce <> Running -> exists ob, nth_error os ow_ = Some ob /\ oprod ob = Some c /\ oslot ob = result_of ce) /\
+  (forall ob, nth_error os ow_ = Some ob -> oprod ob = Some c -> is_res (ow ob) = dn) /\
+  match ce with
+  | Returned _ => p = length pg
+  | Threw e => exists l r a o, rs = l ++ [r] /\ rval r = Some (Some e) /\ is_err (Some e) = Some e /\
+                               nth_error pg (rk r) = Some a /\ aconsume a = Some (o, false)
   | _ => True
   end.
 
+(* callbacks of c exist only in objects its current co_await awaits *)
+Definition R_ok (os : list obj) (c : nat) (ca : option apt) : Prop :=
+  forall o ob, nth_error os o = Some ob -> 1 <= occ c ob -> exists a, ca = Some a /\ In o (aobjs a).
+
 Definition co_ok (s : st) (c : nat) (co : coro) : Prop :=
-  B_ok co (out (objs s) c) /\ C_ok s c co /\ D_ok s c co /\ W_ok s co /\ E_ok s co /\ F_ok co /\ H_ok s c co.
+  B_ok (capt co) (cst co) (cnt co) (out (objs s) c) /\
+  C_ok (objs s) c (capt co) (cst co) /\
+  D_ok (qs s) c (qof (cst co)) /\
+  W_ok (objs s) (capt co) (cst co) (on co) (cexec co) (cown0 co) /\
+  E_ok (objs s) (prog co) (pc co) (resumes co) (readys co) /\
+  F_ok (llive co) (ldtors co) (fowner co) (ffrees co) (is_done (cst co)) /\
+  H_ok (objs s) c (cend co) (own co) (ended (cst co)) (is_done (cst co)) (pc co) (prog co) (resumes co) /\
+  R_ok (objs s) c (capt co).
 
 Definition stk_ok (s : st) : Prop :=
   forall t o, In (t, o) (stk s) -> exists ob, nth_error (objs s) o = Some ob /\ othr ob = Some t.
@@ -298,8 +316,8 @@ Definition obj_ext (c0 : nat) (ob ob' : obj) : Prop :=
   (forall v, oslot ob = Some v -> oslot ob' = Some v) /\
   (forall t, othr ob = Some t -> othr ob' = Some t) /\
   (forall c, c <> c0 -> occ c ob' = occ c ob) /\
-  (forall c, c <> c0 -> In c (stack ob) -> In c (stack ob') \/ complete ob' = true) /\
-  (forall c, oprod ob = Some c -> c <> c0 -> oslot ob' = oslot ob /\ (ow ob' = WRes <-> ow ob = WRes)).
+  (forall c, In c (stack ob) -> In c (stack ob') \/ complete ob' = true) /\
+  (forall c, oprod ob = Some c -> c <> c0 -> oslot ob' = oslot ob /\ is_res (ow ob') = is_res (ow ob)).
 
 Definition q_ext (c0 : nat) (q q' : list nat) : Prop := forall c, c <> c0 -> cocc c q' = cocc c q.
 
@@ -307,16 +325,16 @@ Definition ext (c0 : nat) (s s' : st) : Prop :=
   Forall2 (obj_ext c0) (objs s) (objs s') /\ Forall2 (q_ext c0) (qs s) (qs s').
 
 Lemma obj_ext_refl c0 ob : obj_ext c0 ob ob.
-Proof. unfold obj_ext. split; auto. split; auto. split; auto. split; auto. split; auto. split; auto. intros; tauto. Qed.
+Proof. unfold obj_ext. repeat (split; auto). Qed.
 
 Lemma obj_ext_trans c0 a b c : obj_ext c0 a b -> obj_ext c0 b c -> obj_ext c0 a c.
 Proof.
   unfold obj_ext. intros (A1 & A2 & A3 & A4 & A5 & A6 & A7) (B1 & B2 & B3 & B4 & B5 & B6 & B7).
   split; [congruence|]. split; [auto|]. split; [auto|]. split; [auto|].
   split; [intros x N; rewrite B5, A5; auto|]. split.
-  - intros x N Hi. destruct (A6 x N Hi) as [Hi'|Hc]; auto.
+  - intros x Hi. destruct (A6 x Hi) as [Hi'|Hc]; auto.
   - intros x Hp N. destruct (A7 x Hp N) as [E1 E2]. assert (Hp' : oprod b = Some x) by congruence.
-    destruct (B7 x Hp' N) as [E3 E4]. split. congruence. tauto.
+    destruct (B7 x Hp' N) as [E3 E4]. split; congruence.
 Qed.
 
 Lemma q_ext_refl c0 q : q_ext c0 q q.
@@ -363,12 +381,12 @@ Proof.
   eapply Forall2_imp; [|exact X]. intros a b Y. apply Y. auto.
 Qed.
 
-Lemma ext_reg_done c0 s s' c o : ext c0 s s' -> c <> c0 -> reg_done (objs s) c o -> reg_done (objs s') c o.
+Lemma ext_reg_done c0 s s' c o : ext c0 s s' -> reg_done (objs s) c o -> reg_done (objs s') c o.
 Proof.
-  intros X N [H|(ob & H1 & H2)].
+  intros X [H|(ob & H1 & H2)].
   - left. eapply ext_complete; eauto.
   - destruct X as [X _]. destruct (Forall2_nth _ X H1) as (b & E & Y).
-    destruct Y as (_ & _ & _ & _ & _ & Y6 & _). destruct (Y6 c N H2).
+    destruct Y as (_ & _ & _ & _ & _ & Y6 & _). destruct (Y6 c H2).
     + right. eauto.
     + left. unfold ocomplete. rewrite E. auto.
 Qed.
@@ -386,45 +404,67 @@ Proof.
   destruct a as [| | |f|f| | |]; simpl in *; auto; destruct f; auto.
 Qed.
 
-Lemma ext_rec_ok c0 s s' co r : ext c0 s s' -> rec_ok s co r -> rec_ok s' co r.
+Lemma ext_rec_ok c0 s s' pg r : ext c0 s s' -> rec_ok (objs s) pg r -> rec_ok (objs s') pg r.
 Proof.
-  intros X [R1 R2]. split; auto. intros a Ha. destruct (R2 a Ha) as (A1 & A2 & A3). repeat split.
+  intros X (R1 & R1' & R2). split; auto. split; auto. intros a Ha. destruct (R2 a Ha) as (A1 & A2 & A3). repeat split.
   - intros o Ho. eapply ext_complete; eauto.
   - eapply ext_where; eauto.
   - destruct (aconsume a) as [[o b]|]; auto. destruct A3 as (ob & v & B1 & B2 & B3).
     destruct X as [X _]. destruct (Forall2_nth _ X B1) as (ob' & E & Y). exists ob', v. repeat split; auto. apply Y. auto.
 Qed.
 
-(* a coroutine that is not the one moving keeps its part of the invariant *)
-Lemma co_ok_ext c0 s s' c co : ext c0 s s' -> c <> c0 -> co_ok s c co -> co_ok s' c co.
+Lemma C_ok_ext c0 s s' c ca x : ext c0 s s' -> C_ok (objs s) c ca x -> C_ok (objs s') c ca x.
 Proof.
-  intros X N (B & C & D & W & E & F & H). unfold co_ok.
-  split. { rewrite (ext_out _ _ _ _ X N). auto. }
-  split.
-  { unfold C_ok in *. destruct (capt co); auto.
-    destruct (cst co); auto; try (intros o Ho; eapply ext_reg_done; eauto; fail);
-      try (intros o Ho; eapply ext_complete; eauto; apply C; auto; fail).
-    intros Hm o Ho. eapply ext_reg_done; eauto. }
-  split.
-  { destruct D as [D1 D2]. split.
-    - intros x q' Hq. destruct X as [_ X].
-      destruct (Forall2_nth_rev _ X Hq) as (q & E1 & Y). rewrite (Y c N). auto.
-    - intros x Hx. destruct (D2 x Hx) as (q & Hq). destruct X as [_ X].
-      destruct (Forall2_nth _ X Hq) as (q' & E1 & _). eauto. }
-  split.
-  { unfold W_ok in *. destruct (capt co); auto. destruct (cst co); auto. eapply ext_where; eauto. }
-  split.
-  { destruct E as (E1 & E2 & E3). split; auto. split; auto.
-    eapply Forall_impl; [|exact E2]. intros r. eapply ext_rec_ok; eauto. }
-  split. { exact F. }
-  destruct H as (H1 & H2 & H3 & H4). split; auto. split; [|split; auto].
+  intros X C. unfold C_ok in *. destruct ca; auto.
+  destruct x; auto; try (intros o Ho; eapply ext_reg_done; eauto; fail);
+    try (intros o Ho; eapply ext_complete; eauto; apply C; auto; fail).
+  intros Hm o Ho. eapply ext_reg_done; eauto.
+Qed.
+
+Lemma W_ok_ext c0 s s' ca x t ex own0 : ext c0 s s' -> W_ok (objs s) ca x t ex own0 -> W_ok (objs s') ca x t ex own0.
+Proof. intros X W. unfold W_ok in *. destruct ca; auto. destruct x; auto. eapply ext_where; eauto. Qed.
+
+Lemma E_ok_ext c0 s s' pg p rs rd : ext c0 s s' -> E_ok (objs s) pg p rs rd -> E_ok (objs s') pg p rs rd.
+Proof.
+  intros X (E1 & E2 & E3). split; auto. split; auto. eapply Forall_impl; [|exact E2].
+  intros r. eapply ext_rec_ok; eauto.
+Qed.
+
+Lemma D_ok_ext c0 s s' c qx : ext c0 s s' -> c <> c0 -> D_ok (qs s) c qx -> D_ok (qs s') c qx.
+Proof.
+  intros X N [D1 D2]. split.
+  - intros x q' Hq. destruct X as [_ X].
+    destruct (Forall2_nth_rev _ X Hq) as (q & E1 & Y). rewrite (Y c N). auto.
+  - intros x Hx. destruct (D2 x Hx) as (q & Hq). destruct X as [_ X].
+    destruct (Forall2_nth _ X Hq) as (q' & E1 & _). eauto.
+Qed.
+
+Lemma H_ok_ext c0 s s' c ce o en dn p pg rs :
+  ext c0 s s' -> c <> c0 -> H_ok (objs s) c ce o en dn p pg rs -> H_ok (objs s') c ce o en dn p pg rs.
+Proof.
+  intros X N (H1 & H2 & H3 & H4). split; auto. split; [|split; auto].
   - intros Hr. destruct (H2 Hr) as (ob & A1 & A2 & A3).
     destruct X as [X _]. destruct (Forall2_nth _ X A1) as (ob' & E1 & Y). exists ob'.
     destruct Y as (Y1 & _ & _ & _ & _ & _ & Y7). destruct (Y7 c A2 N) as [Y8 _].
     split; auto. split; congruence.
   - intros ob' E1 Hp. destruct X as [X _].
     destruct (Forall2_nth_rev _ X E1) as (ob & E0 & Y). destruct Y as (Y1 & _ & _ & _ & _ & _ & Y7).
-    rewrite Y1 in Hp. destruct (Y7 c Hp N) as [_ Y8]. specialize (H3 ob E0 Hp). tauto.
+    rewrite Y1 in Hp. destruct (Y7 c Hp N) as [_ Y8]. rewrite Y8. auto.
+Qed.
+
+(* a coroutine that is not the one moving keeps its part of the invariant *)
+Lemma co_ok_ext c0 s s' c co : ext c0 s s' -> c <> c0 -> co_ok s c co -> co_ok s' c co.
+Proof.
+  intros X N (B & C & D & W & E & F & H & R). unfold co_ok.
+  split. { rewrite (ext_out _ _ _ _ X N). auto. }
+  split. { eapply C_ok_ext; eauto. }
+  split. { eapply D_ok_ext; eauto. }
+  split. { eapply W_ok_ext; eauto. }
+  split. { eapply E_ok_ext; eauto. }
+  split. { exact F. }
+  split. { eapply H_ok_ext; eauto. }
+  intros o ob' Hn Ho. destruct X as [X _]. destruct (Forall2_nth_rev _ X Hn) as (ob & E0 & Y).
+  destruct Y as (_ & _ & _ & _ & Y5 & _). rewrite (Y5 c N) in Ho. eauto.
 Qed.
 
 (* the frame of every preservation proof: one coroutine (c0) moves, the others see an extension *)
@@ -503,7 +543,7 @@ Lemma inv_obj s o ob : Inv s -> nth_error (objs s) o = Some ob -> obj_ok ob.
 Proof. intros (I & _) H. eapply Forall_nth; eauto. Qed.
 
 Lemma complete_ready ob : obj_ok ob -> ow ob = WRes -> complete ob = true.
-Proof. intros [H _] E. unfold complete. rewrite E. destruct (oslot ob); auto. exfalso. apply H; auto. Qed.
+Proof. intros (H & _) E. unfold complete. rewrite E. destruct (oslot ob); auto. exfalso. apply H; auto. Qed.
 
 Lemma ocomplete_nth l o ob : nth_error l o = Some ob -> ocomplete l o = complete ob.
 Proof. unfold ocomplete. intros ->. auto. Qed.
@@ -518,4 +558,548 @@ Qed.
 Lemma reg_done_complete os c l : out os c = 0 -> (forall o, In o l -> reg_done os c o) -> all_complete os l.
 Proof.
   intros H R o Ho. destruct (R o Ho) as [X|(ob & E & Hi)]; auto. exfalso. eapply out_zero_stack; eauto.
+Qed.
+
+(* ---------------------------------------------------------------- tactics *)
+
+Ltac red_rec := cbn [prog own pc cst on cexec cown0 cnt llive ldtors fowner ffrees cend resumes readys
+  set_cst set_on set_cexec set_cown0 set_cnt set_readys set_cend local_dtor frame_free resumed
+  oshared olazy ostarted ow opend oslot oexec othr oprod set_ow set_opend set_oslot set_oexec set_ostarted o_exchange
+  objs cos qs stk set_objs set_cos set_qs set_stk set_co set_ob qof is_done ended aform amulti acounted] in *.
+Ltac co_unfold := unfold co_ok, capt, after_reg, do_submit in *; red_rec.
+Ltac split7 := split; [|split; [|split; [|split; [|split; [|split; [|split]]]]]].
+Ltac nat_eqs := repeat match goal with
+  | H : Nat.eqb _ _ = true |- _ => apply Nat.eqb_eq in H
+  | H : Nat.eqb _ _ = false |- _ => apply Nat.eqb_neq in H
+  | H : Nat.leb _ _ = true |- _ => apply Nat.leb_le in H
+  | H : Nat.ltb _ _ = true |- _ => apply Nat.ltb_lt in H
+  | H : Nat.ltb _ _ = false |- _ => apply Nat.ltb_ge in H
+  | H : negb _ = true |- _ => apply negb_true_iff in H
+  | H : negb _ = false |- _ => apply negb_false_iff in H
+  | H : _ && _ = true |- _ => apply andb_true_iff in H; destruct H
+  end.
+Ltac case_if := repeat match goal with |- context [if ?b then _ else _] => destruct b eqn:? end.
+Ltac fin := simpl in *; try tauto; try congruence; try lia; try (intuition (auto; try congruence; try lia); fail).
+Ltac parts := unfold B_ok, C_ok, W_ok, target, all_complete in *.
+(* the moving coroutine: K is its old co_ok *)
+Ltac co_solve K Ha Hs :=
+  co_unfold; rewrite ?Ha, ?Hs in *; destruct K as (B & C & D & W & E & F & Hh & R); case_if; nat_eqs; subst; red_rec;
+  rewrite ?Ha, ?Hs in *; split7; try assumption; try (parts; fin; fail); try (unfold F_ok in *; fin; fail).
+
+(* ---------------------------------------------------------------- primitive changes of an object *)
+
+Lemma occ_push c c1 ob l :
+  ow ob = WStack l -> occ c1 (set_ow (WStack (c :: l)) ob) = (if Nat.eqb c c1 then 1 else 0) + occ c1 ob.
+Proof. intros E. unfold occ, stack. simpl. rewrite E. simpl. lia. Qed.
+
+Lemma obj_ext_push c ob l : ow ob = WStack l -> obj_ext c ob (set_ow (WStack (c :: l)) ob).
+Proof.
+  intros E. unfold obj_ext. simpl. split; auto. split. { unfold complete. rewrite E. discriminate. }
+  split; auto. split; auto. split.
+  { intros c1 N. rewrite (occ_push _ _ _ _ E). destruct (Nat.eqb c c1) eqn:X; auto. apply Nat.eqb_eq in X. congruence. }
+  split. { intros c1 Hi. left. unfold stack in *. simpl. rewrite E in Hi. right. auto. }
+  intros c1 _ _. rewrite E. auto.
+Qed.
+
+Lemma occ_exchange t c ob : ow ob <> WRes -> opend ob = [] -> occ c (o_exchange t ob) = occ c ob.
+Proof. intros E P. unfold occ, stack. simpl. rewrite P. destruct (ow ob); simpl; try lia; congruence. Qed.
+
+Lemma obj_ext_exchange c0 t ob :
+  ow ob <> WRes -> opend ob = [] -> othr ob = None -> (forall c, oprod ob = Some c -> c = c0) ->
+  obj_ext c0 ob (o_exchange t ob).
+Proof.
+  intros E P Ht0 Hp. unfold obj_ext. simpl. split; auto. split. { unfold complete. destruct (ow ob); congruence. }
+  split. { intros v ->. auto. }
+  split. { intros t0 Ht. congruence. }
+  split. { intros c1 _. apply occ_exchange; auto. }
+  split. { intros c1 _. right. unfold complete. simpl. destruct (oslot ob); auto. }
+  intros c1 H1 N. apply Hp in H1. congruence.
+Qed.
+
+Lemma occ_pop c c1 ob rest :
+  opend ob = c :: rest -> occ c1 (set_opend rest ob) + (if Nat.eqb c c1 then 1 else 0) = occ c1 ob.
+Proof. intros E. unfold occ, stack. simpl. rewrite E. simpl. lia. Qed.
+
+Lemma obj_ext_pop c ob rest : opend ob = c :: rest -> obj_ext c ob (set_opend rest ob).
+Proof.
+  intros E. unfold obj_ext. simpl. split; auto. split; auto. split; auto. split; auto. split.
+  { intros c1 N. pose proof (occ_pop _ c1 _ _ E) as X. destruct (Nat.eqb c c1) eqn:Y; try lia.
+    apply Nat.eqb_eq in Y. congruence. }
+  split; auto.
+Qed.
+
+Lemma obj_ext_slot c0 ob r :
+  oslot ob = None -> (forall c, oprod ob = Some c -> c = c0) -> obj_ext c0 ob (set_oslot (Some r) ob).
+Proof.
+  intros E Hp. unfold obj_ext. simpl. split; auto.
+  split. { unfold complete. simpl. rewrite E. destruct (ow ob); auto. }
+  split. { intros v Hv. congruence. }
+  split; auto. split; auto. split; auto.
+  intros c1 H1 N. apply Hp in H1. congruence.
+Qed.
+
+Lemma obj_ext_exec c0 ob x : obj_ext c0 ob (set_oexec x ob).
+Proof. unfold obj_ext. simpl. repeat (split; auto). Qed.
+
+Lemma obj_ext_started c0 ob x : obj_ext c0 ob (set_ostarted x ob).
+Proof. unfold obj_ext. simpl. repeat (split; auto). Qed.
+
+Lemma stk_ok_ext c0 s s' :
+  stk_ok s -> ext c0 s s' ->
+  (forall t o, In (t, o) (stk s') ->
+               In (t, o) (stk s) \/ exists ob, nth_error (objs s') o = Some ob /\ othr ob = Some t) ->
+  stk_ok s'.
+Proof.
+  intros K [X _] H t o Hi. destruct (H t o Hi) as [Hi'|Hx]; auto.
+  destruct (K t o Hi') as (ob & E & Ht). destruct (Forall2_nth _ X E) as (ob' & E' & Y).
+  exists ob'. split; auto. apply Y. auto.
+Qed.
+
+(* one object changes, no coroutine does *)
+Lemma inv_obj_only s o ob ob' :
+  Inv s -> nth_error (objs s) o = Some ob -> (forall c0, obj_ext c0 ob ob') -> obj_ok ob' ->
+  Inv (set_ob o ob' s).
+Proof.
+  intros I Ho X K. assert (Xe : forall c0, ext c0 s (set_ob o ob' s)).
+  { intros c0. eapply ext_obj; eauto; reflexivity. }
+  eapply inv_update with (c0 := length (cos s)); eauto.
+  - simpl. apply Forall_upd; auto. apply I.
+  - eapply (stk_ok_ext 0); eauto. apply I.
+  - simpl. intros co' Hn. apply nth_error_lt in Hn. lia.
+Qed.
+
+(* one coroutine and one object change *)
+Lemma inv_co_obj s c co co' o ob ob' stk' :
+  Inv s -> nth_error (cos s) c = Some co -> nth_error (objs s) o = Some ob ->
+  obj_ext c ob ob' -> obj_ok ob' ->
+  (forall t o1, In (t, o1) stk' -> In (t, o1) (stk s) \/ (o1 = o /\ othr ob' = Some t)) ->
+  co_ok (set_stk stk' (set_co c co' (set_ob o ob' s))) c co' ->
+  Inv (set_stk stk' (set_co c co' (set_ob o ob' s))).
+Proof.
+  intros I Hc Ho X K Hs Hk.
+  assert (Xe : ext c s (set_stk stk' (set_co c co' (set_ob o ob' s)))).
+  { eapply ext_obj; eauto; reflexivity. }
+  eapply inv_update with (c0 := c); eauto.
+  - intros c1 N. simpl. apply nth_error_upd_neq. auto.
+  - simpl. apply Forall_upd; auto. apply I.
+  - eapply stk_ok_ext; eauto. apply I. simpl. intros t o1 Hi. destruct (Hs t o1 Hi) as [|[-> Ht]]; auto.
+    right. exists ob'. split; auto. eapply nth_error_upd_eq; eauto.
+  - simpl. intros co1 H1. erewrite nth_error_upd_eq in H1 by eauto. inversion H1. subst. auto.
+Qed.
+
+(* ---------------------------------------------------------------- the events, one by one *)
+
+Lemma step_begin_inv s t c s' : Inv s -> step_begin s t c = Some s' -> Inv s'.
+Proof.
+  intros I H. unfold step_begin in H.
+  destruct (nth_error (cos s) c) as [co|] eqn:Hc; try discriminate.
+  destruct (cst co) eqn:Hs; try discriminate.
+  destruct (capt co) as [a|] eqn:Ha; try discriminate.
+  destruct (negb (Nat.eqb (on co) t)) eqn:Ht; try discriminate. inversion H; subst; clear H.
+  apply inv_co_only with (co := co); auto.
+  pose proof (inv_co _ _ _ I Hc) as K.
+  destruct a as [o b|o b|o|f o|f os|e| |]; try destruct f as [| |e]; try destruct os as [|o1 os];
+    co_solve K Ha Hs.
+Qed.
+
+Lemma out_upd_same os o ob ob' c :
+  nth_error os o = Some ob -> occ c ob' = occ c ob -> out (upd os o ob') c = out os c.
+Proof. intros H E. unfold out. pose proof (lsum_upd (occ c) _ _ ob' H). lia. Qed.
+
+Lemma out_upd_push os o ob l c :
+  nth_error os o = Some ob -> ow ob = WStack l -> out (upd os o (set_ow (WStack (c :: l)) ob)) c = out os c + 1.
+Proof.
+  intros H E. unfold out. pose proof (lsum_upd (occ c) _ _ (set_ow (WStack (c :: l)) ob) H) as X.
+  rewrite (occ_push _ _ _ _ E), Nat.eqb_refl in X. lia.
+Qed.
+
+Lemma out_upd_pop os o ob rest c :
+  nth_error os o = Some ob -> opend ob = c :: rest -> out (upd os o (set_opend rest ob)) c + 1 = out os c.
+Proof.
+  intros H E. unfold out. pose proof (lsum_upd (occ c) _ _ (set_opend rest ob) H) as X.
+  pose proof (occ_pop _ c _ _ E) as Y. rewrite Nat.eqb_refl in Y. lia.
+Qed.
+
+Lemma store_own_spec c r s1 s2 :
+  store_own c r s1 = Some s2 ->
+  exists co ob, nth_error (cos s1) c = Some co /\ nth_error (objs s1) (own co) = Some ob /\
+                oprod ob = Some c /\ oslot ob = None /\ s2 = set_ob (own co) (set_oslot (Some r) ob) s1.
+Proof.
+  unfold store_own. intros H. destruct (nth_error (cos s1) c) as [co|]; try discriminate.
+  destruct (nth_error (objs s1) (own co)) as [ob|] eqn:E; try discriminate.
+  destruct (oprod ob) as [c'|] eqn:P; try discriminate. destruct (oslot ob) eqn:S; try discriminate.
+  destruct (Nat.eqb c' c) eqn:X; try discriminate. apply Nat.eqb_eq in X. subst. inversion H. eauto 10.
+Qed.
+
+Lemma obj_ok_slot ob r : obj_ok ob -> obj_ok (set_oslot (Some r) ob).
+Proof. intros (A & B & C). unfold obj_ok. simpl. repeat split; auto. discriminate. Qed.
+
+Lemma R_ok_upd os o ob ob' c ca :
+  nth_error os o = Some ob -> R_ok os c ca ->
+  (occ c ob' <= occ c ob \/ exists a, ca = Some a /\ In o (aobjs a)) -> R_ok (upd os o ob') c ca.
+Proof.
+  intros Ho R X o1 ob1 Hn H1. destruct (Nat.eq_dec o o1) as [<-|N].
+  - erewrite nth_error_upd_eq in Hn by eauto. inversion Hn; subst. destruct X as [X|X]; auto. eapply R; eauto. lia.
+  - rewrite nth_error_upd_neq in Hn by auto. eapply R; eauto.
+Qed.
+
+Ltac co_obj K Xe Ha Hs :=
+  co_unfold; rewrite ?Ha, ?Hs in *; destruct K as (B & C & D & W & E & F & Hh & R);
+  apply (C_ok_ext _ _ _ _ _ _ Xe) in C; apply (W_ok_ext _ _ _ _ _ _ _ _ Xe) in W; apply (E_ok_ext _ _ _ _ _ _ _ Xe) in E;
+  case_if; nat_eqs; subst; red_rec; rewrite ?Ha, ?Hs in *; split7; try assumption; try (parts; fin; fail);
+  try (unfold F_ok in *; fin; fail).
+
+Lemma ev_set_inv s t o r s' : Inv s -> step_g true s (ESet t o r) = Some s' -> Inv s'.
+Proof.
+  intros I H. simpl in H. destruct (nth_error (objs s) o) as [ob|] eqn:Ho; try discriminate.
+  destruct (oprod ob) eqn:Hp; try discriminate. destruct (oslot ob) eqn:Hsl; try discriminate.
+  destruct (ow ob) eqn:Hw; try discriminate.
+  destruct (olazy ob && negb (ostarted ob)); try discriminate. inversion H; subst; clear H.
+  eapply inv_obj_only; eauto.
+  - intros c0. apply obj_ext_slot; auto. intros c Hc. congruence.
+  - apply obj_ok_slot. eapply inv_obj; eauto.
+Qed.
+
+Lemma ev_spawn_inv s t c s' : Inv s -> step_g true s (ESpawn t c) = Some s' -> Inv s'.
+Proof.
+  intros I H. simpl in H. destruct (nth_error (cos s) c) as [co|] eqn:Hc; try discriminate.
+  destruct (cst co) eqn:Hs; try discriminate.
+  destruct (nth_error (objs s) (own co)) as [ob|] eqn:Ho; try discriminate.
+  destruct (olazy ob && negb (ostarted ob)); try discriminate. inversion H; subst; clear H.
+  apply inv_co_only with (co := co); auto.
+  pose proof (inv_co _ _ _ I Hc) as K.
+  destruct (capt co) eqn:Ha; co_solve K Ha Hs.
+Qed.
+
+Lemma ev_local_inv s t c s' : Inv s -> step_g true s (ELocal t c) = Some s' -> Inv s'.
+Proof.
+  intros I H. simpl in H. destruct (nth_error (cos s) c) as [co|] eqn:Hc; try discriminate.
+  match type of H with (if ?b then _ else _) = _ => destruct b eqn:G; try discriminate end.
+  inversion H; subst; clear H. apply inv_co_only with (co := co); auto.
+  pose proof (inv_co _ _ _ I Hc) as K. apply andb_true_iff in G. destruct G as [G1 G2].
+  destruct (cst co) eqn:Hs; try discriminate; destruct (capt co) eqn:Ha; co_solve K Ha Hs.
+Qed.
+
+Lemma ev_free_inv s t c s' : Inv s -> step_g true s (EFree t c) = Some s' -> Inv s'.
+Proof.
+  intros I H. simpl in H. destruct (nth_error (cos s) c) as [co|] eqn:Hc; try discriminate.
+  destruct (cst co) eqn:Hs; try discriminate.
+  match type of H with (if ?b then _ else _) = _ => destruct b eqn:G; try discriminate end.
+  inversion H; subst; clear H. apply inv_co_only with (co := co); auto.
+  pose proof (inv_co _ _ _ I Hc) as K.
+  destruct (capt co) eqn:Ha; co_solve K Ha Hs.
+Qed.
+
+Lemma ev_ret_inv s t c r s' : Inv s -> step_g true s (ERet t c r) = Some s' -> Inv s'.
+Proof.
+  intros I H. simpl in H. destruct (nth_error (cos s) c) as [co|] eqn:Hc; try discriminate.
+  destruct (cst co) eqn:Hs; try discriminate. destruct (capt co) eqn:Ha; try discriminate.
+  destruct (Nat.eqb (on co) t) eqn:Ht; try discriminate.
+  apply store_own_spec in H. destruct H as (co1 & ob & H1 & H2 & H3 & H4 & ->).
+  simpl in H1. erewrite nth_error_upd_eq in H1 by eauto. inversion H1; subst; clear H1. simpl in H2.
+  pose proof (inv_co _ _ _ I Hc) as K.
+  eapply (inv_co_obj s c co _ (own co) ob _ (stk s)); eauto.
+  - apply obj_ext_slot; auto. intros c1 E1. congruence.
+  - apply obj_ok_slot. eapply inv_obj; eauto.
+  - assert (Xe : ext c s (set_stk (stk s) (set_co c (set_cend (Returned r) (set_cst AFinal co))
+          (set_ob (own co) (set_oslot (Some r) ob) s)))).
+    { eapply ext_obj; eauto; try reflexivity. apply obj_ext_slot; auto. intros c1 E1. congruence. }
+    co_obj K Xe Ha Hs.
+    + erewrite out_upd_same by (eauto; reflexivity). parts; fin.
+    + destruct Hh as (G1 & G2 & G3 & G4). destruct E as ((E1 & E1') & _). unfold H_ok. split. { split; intros; discriminate. }
+      split. { intros _. eexists. split. eapply nth_error_upd_eq; eauto. split; auto. }
+      split. { intros ob1 Hn Hp. erewrite nth_error_upd_eq in Hn by eauto. inversion Hn; subst. simpl. eapply G3; eauto. }
+      apply nth_error_None in Ha. lia.
+    + eapply R_ok_upd; eauto.
+Qed.
+
+Lemma step_cld_inv s t c v s' : Inv s -> step_cld s t c v = Some s' -> Inv s'.
+Proof.
+  intros I H. unfold step_cld in H. destruct (nth_error (cos s) c) as [co|] eqn:Hc; try discriminate.
+  destruct (capt co) as [a|] eqn:Ha; try discriminate. destruct (cst co) eqn:Hs; try discriminate.
+  match type of H with (if ?b then _ else _) = _ => destruct b eqn:G; try discriminate end.
+  inversion H; subst; clear H. apply inv_co_only with (co := co); auto.
+  pose proof (inv_co _ _ _ I Hc) as K. nat_eqs.
+  destruct a as [o b|o b|o|f o|f os|e| |]; try discriminate.
+  destruct f as [| |e]; co_solve K Ha Hs;
+    parts; simpl in *; destruct B as [_ B]; (eapply reg_done_complete; [|apply C; auto]); lia.
+Qed.
+
+Lemma wants_spec co o :
+  wants co = Some o -> exists a, capt co = Some a /\
+    match cst co with
+    | AReadyL => amulti a = false /\ nth_error (aobjs a) 0 = Some o
+    | AReg i _ | ARegU i _ | ARegS i _ _ => nth_error (aobjs a) i = Some o
+    | ATaskSt => nth_error (aobjs a) 0 = Some o
+    | _ => False
+    end.
+Proof.
+  unfold wants. destruct (capt co) as [a|]; try discriminate. intros H. exists a. split; auto.
+  destruct (cst co); try discriminate; auto. destruct (amulti a); try discriminate. auto.
+Qed.
+
+Lemma E_ok_ready os pg p rs rd ans cm :
+  E_ok os pg p rs rd -> (ans = true -> cm = true) -> E_ok os pg p rs (rd ++ [(ans, cm)]).
+Proof. intros (E1 & E2 & E3) H. split; auto. split; auto. apply Forall_app. split; auto. Qed.
+
+Lemma ready_true_res w : ready_of true w = true -> w = WRes.
+Proof. destruct w; simpl; congruence. Qed.
+
+Lemma all_complete_1 os o ob : nth_error os o = Some ob -> complete ob = true -> all_complete os [o].
+Proof. intros H E o1 [<-|[]]. unfold ocomplete. rewrite H. auto. Qed.
+
+Lemma reg_next os c l i o :
+  nth_error l i = Some o -> (forall o', In o' (firstn i l) -> reg_done os c o') -> reg_done os c o ->
+  forall o', In o' (firstn (S i) l) -> reg_done os c o'.
+Proof.
+  intros H A B o' Hi. rewrite (firstn_S_nth _ _ H) in Hi. apply in_app_or in Hi. destruct Hi as [Hi|[<-|[]]]; auto.
+Qed.
+
+Lemma reg_all os c l i o :
+  nth_error l i = Some o -> length l <= S i -> (forall o', In o' (firstn i l) -> reg_done os c o') -> reg_done os c o ->
+  forall o', In o' l -> reg_done os c o'.
+Proof.
+  intros H L A B o' Hi. eapply reg_next; eauto. rewrite firstn_all2; auto.
+Qed.
+
+Lemma reg_done_res os c o ob : nth_error os o = Some ob -> complete ob = true -> reg_done os c o.
+Proof. intros H E. left. unfold ocomplete. rewrite H. auto. Qed.
+
+Lemma step_ld_inv s t o v s' : Inv s -> step_ld true s t o v = Some s' -> Inv s'.
+Proof.
+  intros I H. unfold step_ld in H. destruct (nth_error (objs s) o) as [ob|] eqn:Ho; try discriminate.
+  destruct (negb (obs_ok v (ow ob))) eqn:Hv; try discriminate.
+  destruct (find_actor (cos s) t o 0) as [c|] eqn:Hf; [|inversion H; subst; auto].
+  apply find_actor_0 in Hf. destruct Hf as (co & Hc & Hon & Hw). rewrite Hc in H.
+  apply wants_spec in Hw. destruct Hw as (a & Ha & Hw). rewrite Ha in H.
+  pose proof (inv_co _ _ _ I Hc) as K. pose proof (inv_obj _ _ _ I Ho) as Ko.
+  assert (Hsh : shape_ok (cst co) a = true). { destruct K as (B & _). unfold B_ok in B. rewrite Ha in B. apply B. }
+  destruct (cst co) eqn:Hs; try discriminate; try tauto.
+  - (* AReadyL *) inversion H; subst; clear H. apply inv_co_only with (co := co); auto.
+    destruct Hw as [Hm Hn].
+    assert (Hr : ready_of true (ow ob) = true -> complete ob = true).
+    { intros Hr. apply complete_ready; auto. apply ready_true_res; auto. }
+    destruct (ready_of true (ow ob)) eqn:Hrd;
+    destruct a as [o1 b|o1 b|o1|f o1|f os|e| |]; try discriminate; try destruct f as [| |e]; simpl in Hn; inversion Hn; subst;
+    co_solve K Ha Hs; try (apply E_ok_ready; auto; fail); try (parts; eapply all_complete_1; eauto; fail).
+  - (* AReg *) pose proof (@nth_error_lt _ _ _ _ Hw) as Hlt.
+    destruct (ow ob) as [l|] eqn:Eow.
+    + destruct (oshared ob); [|destruct l; try discriminate]; inversion H; subst; clear H;
+      (apply inv_co_only with (co := co); auto); co_solve K Ha Hs.
+    + inversion H; subst; clear H. apply inv_co_only with (co := co); auto.
+      assert (Hcm : complete ob = true) by (apply complete_ready; auto).
+      destruct a as [o1 b|o1 b|o1|f o1|f os|e| |]; try discriminate Hsh;
+      try destruct f as [| |e]; simpl in Hw, Hlt; co_solve K Ha Hs;
+      try (parts; simpl in *; (destruct i; [|destruct i; discriminate]); inversion Hw; subst; eapply all_complete_1; eauto; fail);
+      try (parts; simpl in *; eapply reg_next; eauto; eapply reg_done_res; eauto; fail);
+      try (parts; simpl in *; eapply reg_all; eauto; eapply reg_done_res; eauto; fail).
+  - (* ATaskSt *) destruct (ready_of true (ow ob)); try discriminate. inversion H; subst; auto.
+Qed.
+
+Definition pushed (c : nat) (l : list nat) (ob ob' : obj) : Prop :=
+  ow ob' = WStack (c :: l) /\ opend ob' = opend ob /\ oslot ob' = oslot ob /\ othr ob' = othr ob /\ oprod ob' = oprod ob.
+
+Lemma pushed_occ c c1 l ob ob' :
+  ow ob = WStack l -> pushed c l ob ob' -> occ c1 ob' = (if Nat.eqb c c1 then 1 else 0) + occ c1 ob.
+Proof. intros E (P1 & P2 & _). unfold occ, stack. rewrite P1, P2, E. simpl. lia. Qed.
+
+Lemma pushed_ext c l ob ob' : ow ob = WStack l -> pushed c l ob ob' -> obj_ext c ob ob'.
+Proof.
+  intros E P. pose proof P as (P1 & P2 & P3 & P4 & P5). unfold obj_ext.
+  split; auto. split. { unfold complete. rewrite E. discriminate. }
+  split. { intros v. congruence. } split. { intros t. congruence. }
+  split. { intros c1 N. rewrite (pushed_occ _ _ _ _ _ E P). destruct (Nat.eqb c c1) eqn:X; auto. apply Nat.eqb_eq in X. congruence. }
+  split. { intros c1 Hi. left. unfold stack in *. rewrite P1. rewrite E in Hi. right. auto. }
+  intros c1 _ _. rewrite P1, P3, E. auto.
+Qed.
+
+Lemma pushed_ok c l ob ob' : obj_ok ob -> ow ob = WStack l -> pushed c l ob ob' -> obj_ok ob'.
+Proof.
+  intros (A & B & C) E (P1 & P2 & P3 & P4 & P5). unfold obj_ok. rewrite P1, P2, P4.
+  split. discriminate. split. { intros H. apply B in H. congruence. } intros _. apply C. congruence.
+Qed.
+
+Lemma pushed_out os o c l ob ob' :
+  nth_error os o = Some ob -> ow ob = WStack l -> pushed c l ob ob' -> out (upd os o ob') c = out os c + 1.
+Proof.
+  intros H E P. unfold out. pose proof (lsum_upd (occ c) _ _ ob' H) as X.
+  rewrite (pushed_occ _ _ _ _ _ E P), Nat.eqb_refl in X. lia.
+Qed.
+
+Lemma pushed_reg os o c l ob ob' : nth_error os o = Some ob -> pushed c l ob ob' -> reg_done (upd os o ob') c o.
+Proof.
+  intros H (P1 & _). right. exists ob'. split. eapply nth_error_upd_eq; eauto. unfold stack. rewrite P1. left. auto.
+Qed.
+
+Lemma H_ok_upd os o ob ob' c ce ow_ en dn p pg rs :
+  nth_error os o = Some ob -> oprod ob' = oprod ob -> oslot ob' = oslot ob -> is_res (ow ob') = is_res (ow ob) ->
+  H_ok os c ce ow_ en dn p pg rs -> H_ok (upd os o ob') c ce ow_ en dn p pg rs.
+Proof.
+  intros Ho P1 P2 P3 (H1 & H2 & H3 & H4). split; auto. split; [|split; auto].
+  - intros Hr. destruct (H2 Hr) as (ob1 & A1 & A2 & A3). destruct (Nat.eq_dec o ow_) as [->|N].
+    + exists ob'. rewrite Ho in A1. inversion A1; subst. split. eapply nth_error_upd_eq; eauto. split; congruence.
+    + exists ob1. rewrite nth_error_upd_neq; auto.
+  - intros ob1 Hn Hp. destruct (Nat.eq_dec o ow_) as [->|N].
+    + erewrite nth_error_upd_eq in Hn by eauto. inversion Hn; subst. rewrite P3. apply H3; auto. congruence.
+    + rewrite nth_error_upd_neq in Hn; auto.
+Qed.
+
+(* the coroutine at index c registers with object o (a successful CAS / StoreCallback) *)
+Lemma push_inv s c co co' o ob ob' l a i w :
+  Inv s -> nth_error (cos s) c = Some co -> nth_error (objs s) o = Some ob -> ow ob = WStack l -> pushed c l ob ob' ->
+  capt co = Some a -> nth_error (aobjs a) i = Some o ->
+  (cst co = ARegU i w \/ (exists n, cst co = ARegS i w n) \/ (cst co = ATaskSt /\ i = 0 /\ w = 0)) ->
+  co' = after_reg (on co) a i w true co ->
+  Inv (set_co c co' (set_ob o ob' s)).
+Proof.
+  intros I Hc Ho Eow P Ha Hw Hst ->.
+  pose proof (inv_co _ _ _ I Hc) as K. pose proof (inv_obj _ _ _ I Ho) as Ko.
+  assert (Hsh : shape_ok (cst co) a = true). { destruct K as (B & _). unfold B_ok in B. rewrite Ha in B. apply B. }
+  pose proof (@nth_error_lt _ _ _ _ Hw) as Hlt.
+  eapply (inv_co_obj s c co _ o ob ob' (stk s)); eauto.
+  - eapply pushed_ext; eauto.
+  - eapply pushed_ok; eauto.
+  - assert (Xe : ext c s (set_stk (stk s) (set_co c (after_reg (on co) a i w true co) (set_ob o ob' s)))).
+    { eapply ext_obj; eauto; try reflexivity. eapply pushed_ext; eauto. }
+    pose proof (pushed_out _ _ _ _ _ _ Ho Eow P) as Xo. pose proof (pushed_reg _ _ _ _ _ _ Ho P) as Xr.
+    destruct Hst as [Hs|[[nx Hs]|(Hs & -> & ->)]]; rewrite Hs in Hsh;
+    destruct a as [o1 b|o1 b|o1|f o1|f os|e| |]; try discriminate Hsh; try destruct f as [| |e]; simpl in Hw, Hlt;
+    co_obj K Xe Ha Hs;
+    try (eapply H_ok_upd; eauto; try apply P; destruct P as (P1 & _); rewrite P1, Eow; reflexivity);
+    try (parts; simpl in *; (destruct i; [|destruct i; discriminate]); inversion Hw; subst; intros o' [<-|[]]; auto; fail);
+    try (parts; simpl in *; eapply reg_next; eauto; fail);
+    try (parts; simpl in *; eapply reg_all; eauto; fail);
+    try (eapply R_ok_upd; eauto; right; eexists; split; [reflexivity|]; eapply nth_error_In; eauto; fail);
+    try (eapply R_ok_upd; eauto; right; eexists; split; [reflexivity|]; inversion Hw; subst; simpl; auto; fail).
+Qed.
+
+Lemma list_eqb_eq : forall a b, list_eqb a b = true -> a = b.
+Proof.
+  induction a; destruct b; simpl; intros; try discriminate; auto.
+  apply andb_true_iff in H. destruct H as [H1 H2]. apply Nat.eqb_eq in H1. apply IHa in H2. congruence.
+Qed.
+
+(* SetCallback on the i-th object returned false: that object is complete *)
+Lemma regfail_inv s c co o ob a i w :
+  Inv s -> nth_error (cos s) c = Some co -> nth_error (objs s) o = Some ob -> ow ob = WRes ->
+  capt co = Some a -> nth_error (aobjs a) i = Some o ->
+  (cst co = AReg i w \/ cst co = ARegU i w \/ exists n, cst co = ARegS i w n) ->
+  Inv (set_co c (after_reg (on co) a i w false co) s).
+Proof.
+  intros I Hc Ho Eow Ha Hw Hst.
+  pose proof (inv_co _ _ _ I Hc) as K. pose proof (inv_obj _ _ _ I Ho) as Ko.
+  assert (Hsh : shape_ok (cst co) a = true). { destruct K as (B & _). unfold B_ok in B. rewrite Ha in B. apply B. }
+  pose proof (@nth_error_lt _ _ _ _ Hw) as Hlt.
+  assert (Hcm : complete ob = true) by (apply complete_ready; auto).
+  apply inv_co_only with (co := co); auto.
+  destruct Hst as [Hs|[Hs|[nx Hs]]]; rewrite Hs in Hsh;
+  destruct a as [o1 b|o1 b|o1|f o1|f os|e| |]; try discriminate Hsh;
+  try destruct f as [| |e]; simpl in Hw, Hlt; co_solve K Ha Hs;
+  try (parts; simpl in *; (destruct i; [|destruct i; discriminate]); inversion Hw; subst; eapply all_complete_1; eauto; fail);
+  try (parts; simpl in *; eapply reg_next; eauto; eapply reg_done_res; eauto; fail);
+  try (parts; simpl in *; eapply reg_all; eauto; eapply reg_done_res; eauto; fail).
+Qed.
+
+Lemma step_cas_inv s t o ok s' : Inv s -> step_cas s t o ok = Some s' -> Inv s'.
+Proof.
+  intros I H. unfold step_cas in H. destruct (nth_error (objs s) o) as [ob|] eqn:Ho; try discriminate.
+  destruct (find_actor (cos s) t o 0) as [c|] eqn:Hf; try discriminate.
+  apply find_actor_0 in Hf. destruct Hf as (co & Hc & Hon & Hw). rewrite Hc in H.
+  apply wants_spec in Hw. destruct Hw as (a & Ha & Hw). rewrite Ha in H. subst t.
+  destruct (cst co) eqn:Hs; try discriminate.
+  - (* ARegU *) destruct (ow ob) as [[|x l]|] eqn:Eow; try discriminate; destruct ok; try discriminate; inversion H; subst; clear H.
+    + eapply push_inv; eauto. repeat split; auto.
+    + eapply regfail_inv; eauto.
+  - (* ARegS *) destruct (ow ob) as [l|] eqn:Eow.
+    + destruct (list_eqb l next) eqn:El.
+      * destruct ok; inversion H; subst; clear H; auto. eapply push_inv; eauto. repeat split; auto.
+      * destruct ok; try discriminate. inversion H; subst; clear H. apply inv_co_only with (co := co); auto.
+        pose proof (inv_co _ _ _ I Hc) as K. co_solve K Ha Hs.
+    + destruct ok; try discriminate. inversion H; subst; clear H. eapply regfail_inv; eauto.
+Qed.
+
+Lemma step_st_inv s t o s' : Inv s -> step_st s t o = Some s' -> Inv s'.
+Proof.
+  intros I H. unfold step_st in H. destruct (nth_error (objs s) o) as [ob|] eqn:Ho; try discriminate.
+  destruct (find_actor (cos s) t o 0) as [c|] eqn:Hf; try discriminate.
+  apply find_actor_0 in Hf. destruct Hf as (co & Hc & Hon & Hw). rewrite Hc in H.
+  apply wants_spec in Hw. destruct Hw as (a & Ha & Hw).
+  destruct (cst co) eqn:Hs; try discriminate. destruct (ow ob) as [[|x l]|] eqn:Eow; try discriminate.
+  inversion H; subst; clear H.
+  pose proof (inv_co _ _ _ I Hc) as K.
+  assert (Hsh : shape_ok (cst co) a = true). { destruct K as (B & _). unfold B_ok in B. rewrite Ha in B. apply B. }
+  rewrite Hs in Hsh.
+  replace (set_cst AWait co) with (after_reg (on co) a 0 0 true co).
+  - eapply push_inv; eauto. repeat split; auto.
+  - destruct a; try discriminate Hsh; reflexivity.
+Qed.
+
+Lemma inv_obj_stk s o ob ob' stk' :
+  Inv s -> nth_error (objs s) o = Some ob -> (forall c0, obj_ext c0 ob ob') -> obj_ok ob' ->
+  (forall t o1, In (t, o1) stk' -> In (t, o1) (stk s) \/ (o1 = o /\ othr ob' = Some t)) ->
+  Inv (set_stk stk' (set_ob o ob' s)).
+Proof.
+  intros I Ho X K Hs. assert (Xe : forall c0, ext c0 s (set_stk stk' (set_ob o ob' s))).
+  { intros c0. eapply ext_obj; eauto; reflexivity. }
+  eapply inv_update with (c0 := length (cos s)); eauto.
+  - simpl. apply Forall_upd; auto. apply I.
+  - eapply (stk_ok_ext 0); eauto. apply I. simpl. intros t o1 Hi. destruct (Hs t o1 Hi) as [|[-> Ht]]; auto.
+    right. exists ob'. split; auto. eapply nth_error_upd_eq; eauto.
+  - simpl. intros co' Hn. apply nth_error_lt in Hn. lia.
+Qed.
+
+Lemma obj_ok_exchange t ob : obj_ok (o_exchange t ob).
+Proof. unfold obj_ok. simpl. split. { intros _. destruct (oslot ob); discriminate. } split; auto. congruence. Qed.
+
+Lemma obj_ok_pend ob : obj_ok ob -> ow ob <> WRes -> opend ob = [].
+Proof. intros (_ & B & _) N. destruct (opend ob) eqn:E; auto. exfalso. apply N. apply B. discriminate. Qed.
+
+Lemma push_stk_eq t o ob s1 :
+  exists stk', push_stk t o ob s1 = set_stk stk' s1 /\
+               (forall x, In x stk' -> In x (stk s1) \/ x = (t, o)).
+Proof.
+  unfold push_stk. destruct (ow ob) as [[|x l]|].
+  - exists (stk s1). split. destruct s1; reflexivity. auto.
+  - exists ((t, o) :: stk s1). split; auto. intros y [<-|H]; auto.
+  - exists (stk s1). split. destruct s1; reflexivity. auto.
+Qed.
+
+Lemma step_xchg_inv s t o s' : Inv s -> step_xchg s t o = Some s' -> Inv s'.
+Proof.
+  intros I H. unfold step_xchg in H. destruct (nth_error (objs s) o) as [ob|] eqn:Ho; try discriminate.
+  pose proof (inv_obj _ _ _ I Ho) as Ko.
+  destruct (ow ob) as [l|] eqn:Eow; try discriminate.
+  assert (Nw : ow ob <> WRes) by congruence.
+  pose proof (obj_ok_pend _ Ko Nw) as Hp. assert (Ht : othr ob = None) by (apply Ko; auto).
+  destruct (oprod ob) as [c|] eqn:Hpr.
+  - destruct (nth_error (cos s) c) as [co|] eqn:Hc; try discriminate.
+    destruct (cst co) eqn:Hs; try discriminate.
+    match type of H with (if ?b then _ else _) = _ => destruct b eqn:G; try discriminate end.
+    inversion H; subst; clear H. nat_eqs. subst.
+    destruct (push_stk_eq (on co) (own co) ob (set_co c (set_cst ADone co) (set_ob (own co) (o_exchange (on co) ob) s))) as (stk' & -> & Hst).
+    pose proof (inv_co _ _ _ I Hc) as K.
+    eapply (inv_co_obj s c co _ (own co) ob _ stk'); eauto.
+    + apply obj_ext_exchange; auto. intros c1 E1. congruence.
+    + apply obj_ok_exchange.
+    + intros t o1 Hi. destruct (Hst _ Hi) as [|E1]; auto. inversion E1; subst. right. auto.
+    + assert (Xe : ext c s (set_stk stk' (set_co c (set_cst ADone co) (set_ob (own co) (o_exchange (on co) ob) s)))).
+      { eapply ext_obj; eauto; try reflexivity. apply obj_ext_exchange; auto. intros c1 E1. congruence. }
+      assert (Xo : out (upd (objs s) (own co) (o_exchange (on co) ob)) c = out (objs s) c).
+      { eapply out_upd_same; eauto. apply occ_exchange; auto. }
+      assert (XH : H_ok (upd (objs s) (own co) (o_exchange (on co) ob)) c (cend co) (own co) true true (pc co) (prog co) (resumes co)).
+      { destruct K as (_ & _ & _ & _ & _ & _ & (G1 & G2 & G3 & G4) & _). rewrite Hs in *. simpl in *.
+        assert (Hr : cend co <> Running). { intros X. apply G1 in X. discriminate. }
+        destruct (G2 Hr) as (ob1 & A1 & A2 & A3). rewrite Ho in A1. inversion A1; subst ob1.
+        split; auto. split; [|split; auto].
+        - intros _. eexists. split. eapply nth_error_upd_eq; eauto. split; auto. simpl. rewrite A3.
+          destruct (cend co); simpl; auto. congruence.
+        - intros ob2 Hn _. erewrite nth_error_upd_eq in Hn by eauto. inversion Hn. reflexivity. }
+      destruct (capt co) eqn:Ha; co_obj K Xe Ha Hs; try (rewrite Xo; parts; fin; fail);
+      try (eapply R_ok_upd; eauto; left; rewrite occ_exchange; auto; fail).
+  - destruct (olazy ob && negb (ostarted ob)); try discriminate. inversion H; subst; clear H.
+    destruct (push_stk_eq t o ob (set_ob o (o_exchange t ob) s)) as (stk' & -> & Hst).
+    eapply inv_obj_stk; eauto.
+    + intros c0. apply obj_ext_exchange; auto. intros c1 E1. congruence.
+    + apply obj_ok_exchange.
+    + intros t1 o1 Hi. destruct (Hst _ Hi) as [|E1]; auto. inversion E1; subst. right. auto.
 Qed.
